@@ -73,6 +73,11 @@ CHECKS = {
    text="Names.tla transcribes encode_filename and the delegated file name; TLC enumerates every role name up to length 3-4 over a 13-symbol alphabet of URL- and path-significant characters and checks PlainEntry. Every name goes through the public DelegatedTargets::filename (compared with the model, collision check over all names); names up to length 2-3 additionally through a full load() with a datastore (every requested URL, every datastore entry and the datastore's parent are inspected), Repository::cache and RepositoryEditor delegate_role/sign/write, for both consistent_snapshot settings; random names up to length 64.",
    note="Trusted: TLC; the harness transport logs raw URLs; directory listings taken after each operation.",
    technique="TLA+ model of name encoding (TLC exhaustive) + replay of every name through client, cache and editor with directory/URL observation"),
+
+ "C12": dict(cat="model_checking", design="5 C12",
+   text="SignedDoc.tla states the abstract argument - the client verifies over the re-serialisation of what it parsed, so an accepted document's used content equals the signed content - for every position class and mutation kind and yields the expected verdicts (AcceptedMeansSigned, AlterationsRejected, InsertRejectedOrDropped, HarmlessAccepted, ForeignMembersVerify). The harness builds documents of every role type carrying unknown members at every level with a catch-all map and serves every single-point mutation at every concrete position (about 400 mutants) through load() with the original signatures; when a mutant is accepted the parsed content is compared with the signed original.",
+   note="Honest limit: TLC contributes the classification and verdict table; whether each Rust struct field survives re-serialisation is decided only by the replay. F11 is a recorded finding.",
+   technique="TLA+ model as oracle (TLC) + exhaustive single-point mutation of real signed documents through the real client"),
 }
 NA_REASON = "check not built yet in this round (planned, see DESIGN.md section 5); not claimed"
 
